@@ -96,9 +96,10 @@ def rhs5 (pk : Bool) (ps imp : List String) (ρ : String → Option Word) (e : X
 def cond5 (pk : Bool) (ps imp : List String) (ρ : String → Option Word) (e : X.Expr) : Bool :=
   pureE e || (pk && ppE ps imp e) || ipE5 pk ps imp ρ e
 
-/-- The actuals of a system call: call-free, or constants except one actual of the class `ipE5`. -/
+/-- The actuals of a system call: call-free, (class v3) with calls of pure functions, or constants
+    except one actual of the class `ipE5`. -/
 def sysArgs5 (pk : Bool) (ps imp : List String) (ρ : String → Option Word) (args : List X.Expr) : Bool :=
-  args.all pureE || oneImp5 pk ps imp ρ args
+  args.all pureE || (pk && args.all (ppE ps imp)) || oneImp5 pk ps imp ρ args
 
 /-- A name the constants `ρ` make a system-call number. -/
 def valSys (ρ : String → Option Word) (f : String) : Bool :=
@@ -153,7 +154,7 @@ theorem okS4_okS5 (pk : Bool) (ps imp : List String) (ρ : String → Option Wor
   | .syscall _ _, h => by
     simp only [okS4, Bool.and_eq_true] at h
     simp only [okS5, sysArgs5, Bool.and_eq_true, Bool.or_eq_true]
-    exact ⟨h.1, Or.inl h.2⟩
+    exact ⟨h.1, Or.inl (Or.inl h.2)⟩
   | .call _ _, h => by
     simp only [okS4, Bool.and_eq_true] at h
     simp only [okS5, argsOk5, Bool.and_eq_true, Bool.or_eq_true]
